@@ -1,6 +1,6 @@
 from __future__ import annotations
 
-from fortls.constants import BASE_TYPE_ID
+from fortls.constants import BASE_TYPE_ID, INTERFACE_TYPE_ID
 from fortls.helper_functions import fortran_md
 
 
@@ -83,6 +83,11 @@ class FortranObj:
 
     def get_implicit(self):
         if self.parent is None:
+            return self.implicit_vars
+        # An interface body has implicit typing rules of its own: the IMPLICIT
+        # statement of the host does not reach into it (unless it is the
+        # interface of a separate module procedure)
+        if (self.parent.get_type() == INTERFACE_TYPE_ID) and not self.is_mod_scope():
             return self.implicit_vars
         parent_implicit = self.parent.get_implicit()
         if (self.implicit_vars is not None) or (parent_implicit is None):
